@@ -66,6 +66,9 @@ def check(run, case):
                 kinds['store-diverged-after-lost-frame'] = 'unit %s differs from the model: %s' % (u, _d(real, want, u))
             else:
                 kinds['store'] = 'unit %s differs from the model: %s' % (u, _d(real, want, u))
+    for text in SM.aliasing_problems(blocks):
+        kinds['store-aliasing'] = text
+    run.count('aliasing_checks')
     problems, matched = SH.match(case['framing'], ex['exp'], ex['out_frames'])
     for k, text in problems:
         if k in ('answered-silent', 'gateway-code', 'unsolicited') or (k in ('missing', 'wrong-content') and not lossy):
@@ -116,6 +119,48 @@ def sweep_case(r, front, framing, hosted, single, flags, unit, uniq, same_layout
     return {'front': front, 'framing': framing, 'layout': layout, 'flags': flags, 'reads': reads}
 
 
+def exact_cover_case(r, front, framing, uniq, i):
+    """small tables; a broadcast (or unicast) write that covers a whole table exactly, then unicast writes to single units, then reads of all"""
+    hosted = sorted(r.sample(range(1, 40), r.randint(2, 3)))
+    zero = bool(r.getrandbits(1))
+    off = 0 if zero else 1
+    start, n = r.choice([0, 1, 5]) + off, r.randint(1, 12)
+    def lay():
+        return {'c': {'type': 'seq', 'start': start, 'values': [bool(r.getrandbits(1)) for _ in range(n)]},
+                'd': {'type': 'seq', 'start': start, 'values': [False] * n},
+                'i': {'type': 'seq', 'start': start, 'values': [0] * n},
+                'h': {'type': 'seq', 'start': start, 'values': [r.randrange(65536) for _ in range(n)]}, 'alias': {}}
+    layout = {'single': False, 'zero_mode': zero, 'units': {u: lay() for u in hosted}}
+    bc = not front.startswith('tw')
+    flags = {'ignore_missing_slaves': bool(i % 2), 'broadcast_enable': bc}
+    tid = [0]
+    a = start - off
+
+    def fr(unit, m):
+        tid[0] += 1
+        return [[unit, tid[0], m]]
+
+    def vals(k):
+        uniq[0] += k
+        return [(uniq[0] - j) & 0xFFFF for j in range(k)]
+    target = 0 if bc else hosted[0]
+    kind = i % 3
+    if kind == 0:
+        w = {'dir': REQ, 'fc': 16, 'address': a, 'registers': vals(n)}
+    elif kind == 1:
+        w = {'dir': REQ, 'fc': 15, 'address': a, 'bits': [bool(r.getrandbits(1)) for _ in range(n)]}
+    else:
+        w = {'dir': REQ, 'fc': 23, 'read_address': a, 'read_count': 1, 'write_address': a, 'registers': vals(n)}
+    reads = [fr(target, w)]
+    for u in hosted[:2]:
+        reads.append(fr(u, {'dir': REQ, 'fc': 6, 'address': a + r.randrange(n), 'value': vals(1)[0]}))
+        reads.append(fr(u, {'dir': REQ, 'fc': 5, 'address': a + r.randrange(n), 'value': r.choice([0, 0xFF00])}))
+    for u in hosted:
+        reads.append(fr(u, {'dir': REQ, 'fc': 3, 'address': a, 'count': n}))
+        reads.append(fr(u, {'dir': REQ, 'fc': 1, 'address': a, 'count': n}))
+    return {'front': front, 'framing': framing, 'layout': layout, 'flags': flags, 'reads': reads}
+
+
 def reconfig_case(r, front, framing, uniq, i):
     """traffic, then context[new] = ... / del context[old] / context[old] = replacement, then traffic to old and new units"""
     single = i % 5 == 4
@@ -140,6 +185,14 @@ def reconfig_case(r, front, framing, uniq, i):
         return [[unit, tid[0], {'dir': REQ, 'fc': 3, 'address': a, 'count': 1}]]
     reads, reconfig = [], []
     warm = i % 4 != 3                      # three of four histories see traffic before the first reconfiguration
+    if i % 7 == 5 and not single:
+        # a multi-unit server that hosts nothing when it is constructed; every unit is registered at run time
+        layout['units'] = {}
+        reads.append(rd(hosted[0]))                                        # nobody home yet: silence or a gateway exception
+        for u in hosted:
+            reconfig.append([len(reads), 'set', u, copy.deepcopy(base)])
+        reads += [rd(new), wr(hosted[0]), rd(hosted[0]), wr(hosted[-1]), rd(hosted[-1]), wr(new), wr(0), rd(hosted[0])]
+        return {'front': front, 'framing': framing, 'layout': layout, 'flags': flags, 'reads': reads, 'reconfig': reconfig}
     if warm:
         reads += [wr(hosted[0]), rd(hosted[-1])]
     # The sync and asyncio handlers take their snapshot of the hosted unit ids before they wait for the next read, so
@@ -199,7 +252,7 @@ def run(run):
                              'reads': [[(u, m['fc']) for u, t, m in rd] for rd in case['reads']][:6], 'verdict': 'agrees' if ok else 'differs'},
                      sample_class=('hist', front, framing))
     # (3) run-time reconfiguration through the context's mapping interface between requests
-    n3 = run.scale(6, 600)
+    n3 = run.scale(8, 600)
     for front, framing in FRONTS:
         for i in range(n3):
             idx += 1
@@ -213,6 +266,19 @@ def run(run):
                              'reconfig': [(a, b, c) for a, b, c, _ in case['reconfig']],
                              'reads': [[(u, m['fc']) for u, t, m in rd] for rd in case['reads']][:8], 'verdict': 'agrees' if ok else 'differs'},
                      sample_class=('reconfig', front, framing))
+    # (4) writes that cover a whole table exactly (broadcast where offered), followed by writes to single units
+    for front, framing in FRONTS:
+        for i in range(run.scale(6, 300)):
+            idx += 1
+            if not run.mine(idx):
+                continue
+            case = exact_cover_case(r, front, framing, uniq, i)
+            ok = check(run, case)
+            run.count('exact_cover_histories')
+            run.case(h64(repr(case)), True,
+                     sample={'front': front, 'framing': framing, 'hosted': sorted(case['layout']['units']), 'flags': case['flags'],
+                             'reads': [[(u, m['fc']) for u, t, m in rd] for rd in case['reads']][:8], 'verdict': 'agrees' if ok else 'differs'},
+                     sample_class=('exact-cover', front, framing))
     run.floor('run-time reconfiguration histories', run.counters.get('reconfig_histories', 0), 30 if run.shard is None else 1)
     run.floor('per-unit dumps compared', run.counters.get('unit_dumps_compared', 0), 5000 if run.shard is None else 300)
     run.floor('clean-region histories', run.counters.get('clean_region_cases', 0), 1500 if run.shard is None else 100)
